@@ -6,6 +6,7 @@ package c13
 
 import (
 	"context"
+	"errors"
 	"fmt"
 	"regexp"
 	"sort"
@@ -33,6 +34,27 @@ type fakeNginx struct {
 	stateFiles map[string][]string // state file path -> servers (survives reloads)
 	apiCalls   int
 	reloads    int
+	// fault injection (harness/c13/faults.go): what the environment does to the calls of the current batch
+	faults ngxFaults
+	fired  bool // a fault hit a call of the current batch
+}
+
+// ngxFaults is the fault script of one batch.
+type ngxFaults struct {
+	Replace bool     `json:"replace"` // file.Manager.ReplaceFiles returns an error (files unchanged)
+	Reload  bool     `json:"reload"`  // runtime.Manager.Reload returns an error (NGINX keeps running what it has)
+	Get     bool     `json:"get"`     // NginxPlusClient.GetUpstreams returns an error
+	HTTP    []string `json:"http"`    // UpdateHTTPServers(name, …) returns an error for these names (nothing changes)
+	Stream  []string `json:"stream"`  // UpdateStreamServers(name, …) likewise
+}
+
+func (f ngxFaults) has(list []string, name string) bool {
+	for _, n := range list {
+		if n == name {
+			return true
+		}
+	}
+	return false
 }
 
 func newFakeNginx() *fakeNginx {
@@ -62,6 +84,10 @@ func (n *fakeNginx) clone() *fakeNginx {
 // ---- file.Manager
 
 func (n *fakeNginx) ReplaceFiles(files []file.File) error {
+	if n.faults.Replace {
+		n.fired = true
+		return errors.New("injected: cannot write configuration files")
+	}
 	n.files = files
 	return nil
 }
@@ -139,7 +165,14 @@ type fakeManager struct {
 	n *fakeNginx
 }
 
-func (m fakeManager) Reload(context.Context, int) error { m.n.reload(); return nil }
+func (m fakeManager) Reload(context.Context, int) error {
+	if m.n.faults.Reload {
+		m.n.fired = true
+		return errors.New("injected: NGINX did not load the new configuration")
+	}
+	m.n.reload()
+	return nil
+}
 
 // ---- runtime.NginxPlusClient
 
@@ -168,6 +201,10 @@ func (n *fakeNginx) UpdateHTTPServers(upstream string, servers []ngxclient.Upstr
 	[]ngxclient.UpstreamServer, []ngxclient.UpstreamServer, []ngxclient.UpstreamServer, error,
 ) {
 	n.apiCalls++
+	if n.faults.has(n.faults.HTTP, upstream) {
+		n.fired = true
+		return nil, nil, nil, fmt.Errorf("injected: API update of upstream %q failed", upstream)
+	}
 	if _, ok := n.http[upstream]; !ok {
 		return nil, nil, nil, fmt.Errorf("upstream %q not found", upstream)
 	}
@@ -186,6 +223,10 @@ func (n *fakeNginx) UpdateStreamServers(upstream string, servers []ngxclient.Str
 	[]ngxclient.StreamUpstreamServer, []ngxclient.StreamUpstreamServer, []ngxclient.StreamUpstreamServer, error,
 ) {
 	n.apiCalls++
+	if n.faults.has(n.faults.Stream, upstream) {
+		n.fired = true
+		return nil, nil, nil, fmt.Errorf("injected: API update of stream upstream %q failed", upstream)
+	}
 	if _, ok := n.stream[upstream]; !ok {
 		return nil, nil, nil, fmt.Errorf("stream upstream %q not found", upstream)
 	}
@@ -201,6 +242,10 @@ func (n *fakeNginx) UpdateStreamServers(upstream string, servers []ngxclient.Str
 }
 
 func (n *fakeNginx) GetUpstreams() (*ngxclient.Upstreams, error) {
+	if n.faults.Get {
+		n.fired = true
+		return nil, errors.New("injected: GET upstreams failed")
+	}
 	out := ngxclient.Upstreams{}
 	for name, servers := range n.http {
 		u := ngxclient.Upstream{Zone: name}
